@@ -152,6 +152,11 @@ func c19Worker(c *core.Collector, x *Ctx) {
 		if g.Chance(1, 10) {
 			bcd = g.Bytes(6) // hex digits a-f in the phone
 		}
+		zeroPhone := g.Chance(1, 8)
+		if zeroPhone {
+			bcd = make([]byte, 6) // a device without a SIM number: the directory is <cwd>/000000000000, whatever else the terminal says about itself
+			c.Count("sessions_with_the_all_zero_phone", 1)
+		}
 		phone := ref.PhoneString(bcd)
 		nf := 1 + g.Intn(3)
 		sweep := -1
@@ -228,8 +233,8 @@ func c19Worker(c *core.Collector, x *Ctx) {
 		}
 		// the other client-controlled text fields of the announcement may be hostile too
 		tid, aid := []byte("T1"), []byte("alarm")
-		if g.Chance(1, 3) {
-			tid = []byte(core.Pick(g.Rand, []string{"../t", "..", "/t", "a/../.."}))
+		if g.Chance(1, 3) || (zeroPhone && g.Chance(2, 3)) {
+			tid = []byte(core.Pick(g.Rand, []string{"../t", "..", "/t", "a/../..", "../../x", "../../t", "../root", "../w/../x", "..\\..\\x", "../..", "./../x", "sub/../"}))
 			aid = []byte(core.Pick(g.Rand, []string{"../../alarm", "../x", "/etc/x", "..", "a/b/../../.."}))
 		}
 		ctrl(0x1210, att.Body1210(consts.ActiveSafetyJS, tid, aid, uf))
